@@ -31,6 +31,10 @@ func c15Files(c *Ctx, sh *Shape) []c15file {
 	out = append(out, c15file{Name: "f1", Recs: ex, Part: RandomPartition(len(ex), rng), Page: 3, Codec: 0})
 	rd := GenRecords(sc, GenRandom, 5+rng.Intn(40), rng, false)
 	out = append(out, c15file{Name: "f2", Recs: rd, Part: RandomPartition(len(rd), rng), Page: 2, Codec: 1})
+	// several pages per chunk with a page size that is a multiple of 8 (bit-packed bools fill
+	// whole bytes), one row group
+	r8 := GenRecords(sc, GenRandom, 26+rng.Intn(30), rng, false)
+	out = append(out, c15file{Name: "f4", Recs: r8, Part: []int{len(r8)}, Page: 8, Codec: []int{0, 1, 2}[rng.Intn(3)]})
 	// one shape in eight: a file of many one-record row groups, whose footer is larger than
 	// 64 KiB (one shape in 64: larger than 1 MiB); the struct is then regenerated from THIS file
 	var n int
